@@ -33,6 +33,10 @@ def generate(rng, tier):
             n = rng.randint(1 if kind == "nuts" else 0, 7)
             cases.append({"op": "real", "kind": kind, "f": f, "seed": str(rng.getrandbits(64)), "n_chains": rng.choice([1, 2, 5]),
                           "n": n, "d": rng.randint(0, 6), "n2": rng.randint(0, 4)})
+        if kind != "nuts":
+            # a warm-up-only call run(0, d) must still perform its d transitions (seen through the following run)
+            cases.append({"op": "real", "kind": kind, "f": f, "seed": str(rng.getrandbits(64)), "n_chains": rng.choice([1, 3]),
+                          "n": 0, "d": rng.randint(2, 5), "n2": rng.randint(2, 4)})
     return cases
 
 
